@@ -108,10 +108,11 @@ bool rsValuesFacet::SetBasicText(const EntityUID target, const TextInterpretatio
   } else if (!IsBaseSet(core.GetRS(target).type)) {
     return false;
   } else {
-    const auto dataChange = std::ssize(newInterp) != std::ssize(*TextFor(target));
+    const auto oldElements = SDataFor(target);
     if (!SetTextInternal(target, newInterp)) {
       return false;
     } else {
+      const auto dataChange = oldElements != SDataFor(target);
       if (dataChange) {
         core.ResetDependants(target);
       }
